@@ -23,7 +23,10 @@ DESIGN_REF = "DESIGN.md §1 C09"
 RULE = (
     "one case = (program, argument specs): program is a table key, or a modifier applied to table keys; "
     "arguments are arity-many G-val values (ints, rationals, strings, nested / lazy lists, lambdas) on top of "
-    "three sentinels. Only normally completed executions are evaluated. distinct_nontrivial = distinct "
+    "three sentinels; history cases run one of 17 producer programs first (copies of the global array, register, "
+    "variables, inputs, duplicates, lazy and infinite lists) and then every key on fresh arguments, or on a duplicate "
+    "of the produced entry, above what the producer left: those entries must be the same objects and read the same as "
+    "when the producer runs alone. Only normally completed executions are evaluated. distinct_nontrivial = distinct "
     "(program, argument-shape tuple) pairs that completed and whose program is not exempt."
 )
 ASSUMPTIONS = [
@@ -38,6 +41,7 @@ MIN_COUNTERS = {
     "modifier_pairs_completed": {"quick": 1000, "thorough": 1000},
     "shared_row_entries_checked": {"quick": 300, "thorough": 3000},
     "call_as_monad_checked": {"quick": 5, "thorough": 50},
+    "history_prefix_checked": {"quick": 8000, "thorough": 50000},
 }
 MAX_INCONCLUSIVE_ABS = 5
 UNIT_TIMEOUT = 900
@@ -65,6 +69,8 @@ def units(tier, seed):
     u = [{"kind": "key", "key": k, "n": TUPLES[tier], "seed": seed} for k in keys]
     for i in range(0, len(keys), KEYS_PER_MOD_UNIT):
         u.append({"kind": "mod", "keys": keys[i:i + KEYS_PER_MOD_UNIT], "n": MOD_TUPLES[tier], "seed": seed})
+    for i in range(0, len(keys), KEYS_PER_MOD_UNIT):
+        u.append({"kind": "history", "keys": keys[i:i + KEYS_PER_MOD_UNIT], "n": 2 if tier == "quick" else 12, "seed": seed})
     return u
 
 
@@ -97,6 +103,108 @@ def _eager_view(v, depth=0):
     if callable(v):
         return ("function", id(v))
     return repr(v)
+
+
+# entries left below by earlier steps of the same program (not planted by the harness): copies of the
+# global array, the register, variables, inputs, duplicates, lazily produced and infinite lists
+PRODUCERS = ["¾", "7⅛⟨8|9⟩⅛¾", "9£¥", "⟨1|⟨2|3⟩⟩→a ←a", "⟨1|⟨2|3⟩⟩:", "5ɾ", "5ɾƛ1+;", "6ʀ'2>;", "`ab`:", "??",
+             "1 2\"", "Þ∞", "4ɾ:ƛd;", "⟨⟨1|2⟩|⟨3⟩⟩vṘ", "λ1+;", "3ɾ¾J", "kH ⟨⟩"]
+_CONTROL = {}
+
+
+def _bounded_view(v, width=12, depth=4):
+    """What a program could read from an entry: first `width` items, `depth` levels; lazy and eager
+    lists read alike."""
+    import itertools
+
+    t = type(v)
+    if t is list or t.__name__ == "LazyList":
+        if depth <= 0:
+            return "..."
+        return [_bounded_view(x, width, depth - 1) for x in itertools.islice(iter(v), width)]
+    if callable(v):
+        return "function"
+    return repr(v)
+
+
+def _control(producer):
+    """The producer run alone: how many entries it leaves and what they read as."""
+    from lib.gen import elemcases as ec
+
+    if producer not in _CONTROL:
+        run = ec.execute([producer], ec.make_sentinels())
+        if not run.completed or type(run.stack) is not list or len(run.stack) <= 3:
+            _CONTROL[producer] = None
+        else:
+            try:
+                _CONTROL[producer] = [_bounded_view(x) for x in run.stack[3:]]
+            except Exception:  # noqa
+                _CONTROL[producer] = None
+    return _CONTROL[producer]
+
+
+def run_history_case(producer, key, specs, res, variant="fresh"):
+    """`producer` runs first and leaves entries; then `key` runs on fresh arguments pushed above them
+    (variant 'fresh'), or on a duplicate of the produced top entry (variant 'dup': `:` then the key,
+    further arguments fresh). The produced entries must still be the same objects and read the same
+    as when the producer runs alone."""
+    from lib import values
+    from lib.gen import elemcases as ec
+
+    c = res["counters"]
+    control = _control(producer)
+    if control is None:
+        res["skips"]["producer_control_failed"] = res["skips"].get("producer_control_failed", 0) + 1
+        return "nocontrol"
+    try:
+        args = [values.from_spec(s) for s in specs]
+    except Exception:  # noqa
+        return "nobuild"
+    seen = {}
+
+    def between(i, run):
+        if i == 0:
+            st = run.ns["stack"]
+            seen["produced"] = list(st[3:])
+            if variant == "dup":
+                st.append(run.ns["deep_copy"](st[-1]) if "deep_copy" in run.ns else st[-1])
+            st.extend(args)
+
+    first = producer
+    run = ec.execute([first, key], ec.make_sentinels(), between=between)
+    if not run.completed:
+        res["skips"][run.why] = res["skips"].get(run.why, 0) + 1
+        return run.why
+    if key in ec.WHOLE_STACK_KEYS or (key in ec.PRINT_KEYS and any(ec.has_fn(s) for s in specs)):
+        return "completed"
+    produced = seen.get("produced", [])
+    st = run.stack
+    res["evals"] += 1
+    c["history_prefix_checked"] = c.get("history_prefix_checked", 0) + 1
+    problem = None
+    if type(st) is not list or len(st) < 3 + len(produced):
+        problem = ("history_prefix_lost", f"{len(produced)} entries were below the arguments, final stack has "
+                   f"{len(st) if type(st) is list else '?'} entries")
+    else:
+        for i, obj in enumerate(produced):
+            if st[3 + i] is not obj:
+                problem = ("history_prefix_replaced", f"produced entry {i} is no longer the same object")
+                break
+        if problem is None:
+            try:
+                now = [_bounded_view(x) for x in produced]
+            except Exception as e:  # noqa
+                now = f"reading raised {type(e).__name__}"
+            if now != control:
+                problem = ("history_prefix_value_changed", f"entries produced by {producer!r} read {control!r} when the "
+                           f"producer runs alone and {now!r} after {key!r} ran above them")
+    if problem and len(res["violations"]) < 20:
+        res["violations"].append({
+            "mechanism": problem[0], "subject": key, "case_kind": "history",
+            "what": f"program {producer + ' ' + key!r} ({variant} arguments {specs!r}): {problem[1]}",
+            "unit": {"kind": "hcase", "producer": producer, "key": key, "specs": specs, "variant": variant},
+        })
+    return "completed"
 
 
 def _exempt(kind, program, specs, mod=None):
@@ -255,6 +363,24 @@ def run_unit(unit):
             c["keys_conclusive"] = 1
         else:
             c["keys_inconclusive"] = 1
+    elif kind == "hcase":
+        run_history_case(unit["producer"], unit["key"], unit["specs"], res, unit.get("variant", "fresh"))
+    elif kind == "history":
+        table = ec.element_table()
+        for key in unit["keys"]:
+            arity = max(0, int(table[key][1]))
+            r = ec.rng_for("C09hist", unit["seed"], key)
+            for producer in PRODUCERS:
+                sampler = ec.ArgSampler(r, arity, explore=1)
+                for _ in range(unit["n"]):
+                    cats, specs = sampler.next()
+                    if run_history_case(producer, key, specs, res, "fresh") == "completed":
+                        sampler.completed(cats)
+                if arity >= 1:
+                    sampler = ec.ArgSampler(r, arity - 1, explore=1)
+                    for _ in range(unit["n"]):
+                        cats, specs = sampler.next()
+                        run_history_case(producer, key, specs, res, "dup")
     elif kind == "mod":
         table = ec.element_table()
         keys = list(table)
